@@ -352,7 +352,7 @@ func outcomes(e *proto.Exec, ids []proto.ID) string {
 }
 
 func TestCheck(t *testing.T) {
-	engine.Rule("per protocol case the honest run is harvested once; the fault list = every message slot of every permitted deviator x every node of its CBOR tree x every applicable operator (bit flips, zero, donor value from another sender / a parallel session, int edits, array drop/dup/swap, map field drop) + whole-message drop / replay of another sender's or another session's message / swap between recipients; each fault is one complete execution; inapplicable faults (no differing donor etc.) are counted as trivial")
+	engine.Rule("per protocol case the honest run is harvested once; the fault list = every message slot of every permitted deviator x every node of its CBOR tree x every applicable operator (bit flips, zero, donor value from another sender / a parallel session, int edits, array drop/dup/swap, map field drop) + whole-message drop / replay of another sender's or another session's message / swap between recipients; each fault is one complete execution; inapplicable faults (no differing donor etc.) are counted as trivial. Byte-string leaves of >= 16 bytes additionally get the BELIEVING deviator (the value is altered in the message and wherever the sender's own memory holds it, so all it computes later is consistent with the altered value). Splice faults: from its round R on the deviator sends the messages of its own run in which its random draw K was made differently. Coordinated deviator: a previous holder redistributes a shard of another key. The last hop of every signing protocol (partial signature -> aggregator: Boldyreva in its three modes, Lindell22, DKLs23 with both multipliers, CGGMP21 with the stateless and the cosigner's aggregator) gets the same node x operator enumeration on the deviator's encoded partial signature (section notes).")
 	engine.Assume("single deviation per execution", "default schedule and FIFO arrival (schedules are C11's business)", "allow-list /verif/free_leaves.json names the message parts the protocols do not bind (reviewed by reading the code)", "purego build")
 	thoroughAll = engine.Thorough()
 	ids := []proto.ID{1, 2, 3}
@@ -438,6 +438,9 @@ func TestCheck(t *testing.T) {
 	// non-interactive protocol: Boldyreva threshold BLS (one partial signature per cosigner, then an aggregator)
 	if only == "" || strings.Contains("boldyreva", only) {
 		boldyrevaSections()
+	}
+	if only == "" || strings.Contains(only, "partial-signature") {
+		l22PsigSections()
 	}
 	if len(undet) > 0 {
 		keys := make([]string, 0, len(undet))
